@@ -79,7 +79,8 @@ pub fn explorer_plan(prop: &str, thorough: bool) -> Option<Plan> {
         }
         "C04" => {
             p.checks = Checks { routing: true, accuracy: true, ..Default::default() };
-            p.values = vec![Values::Uniform, Values::Uniform, Values::Grid];
+            // magnitudes matter: a margin that is tiny but not zero must still decide the side
+            p.values = vec![Values::Uniform, Values::Uniform, Values::Grid, Values::Scaled(-9), Values::Scaled(-5), Values::Scaled(6)];
             p.dims = vec![2, 3, 4, 5, 7, 8, 15, 16, 17, 31, 32, 33, 63, 64, 65, 100, 128, 130];
             p.split_after = vec![Some(1), Some(2), Some(3), Some(7), None];
             p.rounds = (3, 6);
